@@ -130,6 +130,26 @@ FStep(f, bl, cfg, now, op) ==
     [] op.o = "permit_node"   -> [f |-> f, bl |-> [bl EXCEPT !.pn = @ \cup {op.node}], ret |-> OkRet]
     [] op.o = "unpermit_node" -> [f |-> f, bl |-> [bl EXCEPT !.pn = @ \ {op.node}], ret |-> OkRet]
 
+\* ------------------------------------------------------------------ RecvHandler::handle_inbound (recv.rs)
+\* exp: the sources a response is expected from (the handler's filter_expected_responses map): their datagrams bypass both
+\* stages.  kind: "msg" (decodes and names the node id nd), "way" (decodes, a WHOAREYOU names no sender), "junk" (does not decode)
+HandleInbound(f, bl, cfg, now, exp, ip, kind, nd) ==
+  LET permitted == ip \in exp
+      a == IF permitted THEN [f |-> f, bl |-> bl, ret |-> "pass"] ELSE InitialPass(f, bl, cfg, now, ip) IN
+  IF a.ret = "drop" THEN [f |-> a.f, bl |-> a.bl, ret |-> "drop"]
+  ELSE IF kind = "junk" THEN [f |-> a.f, bl |-> a.bl, ret |-> "unrecognized"]         \* forwarded as UnrecognizedFrame
+  ELSE IF kind = "way" \/ permitted THEN [f |-> a.f, bl |-> a.bl, ret |-> "inbound"]
+  ELSE LET b == FinalPass(a.f, a.bl, cfg, now, ip, nd) IN
+       [f |-> b.f, bl |-> b.bl, ret |-> IF b.ret = "drop" THEN "drop" ELSE "inbound"]
+
+\* state of the receive task: filter f + exp; every other operation is the filter's
+RStep(f, bl, cfg, now, exp, op) ==
+  CASE op.o = "dgram"    -> LET r == HandleInbound(f, bl, cfg, now, exp, op.ip, op.kind, op.node) IN
+                            [f |-> r.f, bl |-> r.bl, exp |-> exp, ret |-> <<r.ret, "ok">>]
+    [] op.o = "expect"   -> [f |-> f, bl |-> bl, exp |-> exp \cup {op.ip}, ret |-> OkRet]
+    [] op.o = "unexpect" -> [f |-> f, bl |-> bl, exp |-> exp \ {op.ip}, ret |-> OkRet]
+    [] OTHER             -> LET r == FStep(f, bl, cfg, now, op) IN [f |-> r.f, bl |-> r.bl, exp |-> exp, ret |-> r.ret]
+
 \* ================================================================== property formulas (C18)
 \* A ledger is a sequence of arrivals [t |-> time, w |-> tokens, ...].  A window i..j of arrivals of one key is within
 \* the quota iff its tokens do not exceed  burst + floor((t_j - t_i) / T),  T = period / burst  (= burst + rate * window).
@@ -208,6 +228,46 @@ FViols(arr, cfg) ==
   \* ... for at least the configured duration (a ban enacted by this refusal: the key was not banned before)
   \cup (IF (refused1 /\ ~a.bIp /\ \E e \in a.ipBan : ~LongEnough(e, cfg, a.t))
            \/ (refused2 /\ ~a.bNode /\ \E e \in a.nodeBan : ~LongEnough(e, cfg, a.t))
+        THEN {"C18.BanTooShort"} ELSE {})
+
+\* ---- receive-task level.  Only the outcome of a datagram is observable ("drop" / "inbound" / "unrecognized"), not the stage
+\* that dropped it.  arr: [t, w |-> 1, ip, node (0: names none), out, sol (a response was expected from the source: solicited),
+\*                         pIp, bIp, pNode, bNode, ipBan, nodeBan, sh]
+REntry(op, now, exp, pre, post, ret, sh) ==
+  LET nd == IF op.kind = "msg" THEN op.node ELSE 0 IN
+  [t |-> now, w |-> 1, ip |-> op.ip, node |-> nd, out |-> ret[1], sol |-> op.ip \in exp,
+   pIp |-> op.ip \in pre.pi, bIp |-> Has(pre.bi, op.ip), pNode |-> nd \in pre.pn, bNode |-> Has(pre.bn, nd),
+   ipBan |-> {p[2] : p \in {x \in post.bi : x[1] = op.ip}}, nodeBan |-> {p[2] : p \in {x \in post.bn : x[1] = nd}},
+   sh |-> sh[1]]
+RViols(arr, cfg) ==
+  IF arr = <<>> \/ ~cfg.enabled THEN {} ELSE
+  LET n == Len(arr)
+      a == arr[n]
+      before == SubSeq(arr, 1, n - 1)
+      through(x) == x.out # "drop"
+      ipThrough(s)   == SelectSeq(s, LAMBDA x : x.ip = a.ip /\ ~x.sol /\ ~x.pIp /\ through(x))
+      totThrough(s)  == SelectSeq(s, LAMBDA x : ~x.sol /\ ~x.pIp /\ through(x))
+      nodeThrough(s) == SelectSeq(s, LAMBDA x : x.node = a.node /\ ~x.sol /\ ~x.pNode /\ through(x))
+      ipAll   == SelectSeq(arr, LAMBDA x : x.ip = a.ip)
+      nodeAll == SelectSeq(arr, LAMBDA x : x.node = a.node)
+      ipq == IF cfg.rl THEN cfg.ipq ELSE NoQ   nodeq == IF cfg.rl THEN cfg.nodeq ELSE NoQ   totq == IF cfg.rl THEN cfg.totq ELSE NoQ
+      \* what can justify a drop: at the IP stage (unless the IP is permitted) a ban or traffic beyond the IP / total quota,
+      \* at the node stage (a named, not permitted node id) a ban or traffic beyond the node quota (or max_nodes_per_ip being on)
+      j1 == ~a.pIp /\ (a.bIp \/ (HasQ(ipq) /\ ~Within(ipAll, ipq)) \/ (HasQ(totq) /\ ~Within(arr, totq)))
+      j2 == a.node # 0 /\ ~a.pNode /\ (a.bNode \/ (HasQ(nodeq) /\ ~Within(nodeAll, nodeq)) \/ cfg.maxNodes > 0)
+  IN
+  IF a.sol THEN {} ELSE                         \* the property is about unsolicited datagrams
+  (IF through(a) /\ ~a.pIp /\ HasQ(ipq) /\ ~LastWithin(ipThrough(arr), ipq) THEN {"C18.WindowIp"} ELSE {})
+  \cup (IF through(a) /\ ~a.pIp /\ HasQ(totq) /\ ~LastWithin(totThrough(arr), totq) THEN {"C18.WindowTotal"} ELSE {})
+  \cup (IF through(a) /\ a.node # 0 /\ ~a.pNode /\ HasQ(nodeq) /\ ~LastWithin(nodeThrough(arr), nodeq) THEN {"C18.WindowNode"} ELSE {})
+  \cup (IF a.out = "drop" /\ ~j1 /\ ~j2
+        THEN {IF a.pIp /\ (a.node = 0 \/ a.pNode) THEN "C18.BanPermit" ELSE "C18.RefusedWithinQuota"} ELSE {})
+  \cup (IF through(a) /\ ((a.bIp /\ ~a.pIp) \/ (a.node # 0 /\ a.bNode /\ ~a.pNode)) THEN {"C18.BanPermit"} ELSE {})
+  \cup (IF a.out # a.sh THEN {"C18.PruneNeutral"} ELSE {})
+  \* (the IP limit is consulted first: a datagram that does not fit with the IP's let-through ones gets the IP banned)
+  \cup (IF a.out = "drop" /\ ~a.pIp /\ ~a.bIp /\ HasQ(ipq) /\ ~LastWithin(Append(ipThrough(before), a), ipq) /\ a.ipBan = {}
+        THEN {"C18.ExcessNotBanned"} ELSE {})
+  \cup (IF a.out = "drop" /\ ((~a.bIp /\ \E e \in a.ipBan : ~LongEnough(e, cfg, a.t)) \/ (a.node # 0 /\ ~a.bNode /\ \E e \in a.nodeBan : ~LongEnough(e, cfg, a.t)))
         THEN {"C18.BanTooShort"} ELSE {})
 
 \* design level (stronger): the stage verdicts themselves obey the windows (tokens are spent per stage)
